@@ -4,7 +4,10 @@ package commitlog
 
 import (
 	"fmt"
+	"os"
 	"sort"
+	"strconv"
+	"strings"
 	"time"
 
 	pkgErrors "github.com/pkg/errors"
@@ -197,6 +200,48 @@ func (x *clExec) clean(op clOp) *vfutil.Failure {
 		}
 		return ttl
 	}
+	faulted := false
+	if op.Fault > 0 && n > 1 && len(during) == 0 {
+		if segs := x.l.Segments(); len(segs) > 1 {
+			victim := segs[(op.Fault-1)%(len(segs)-1)]
+			if victim.log.Close() == nil {
+				faulted = true
+				ferr := x.l.Clean() // may or may not report the failure
+				if os.Getenv("VERIF_DEBUG") != "" {
+					var bs []int64
+					for _, sg := range x.l.Segments() {
+						bs = append(bs, sg.BaseOffset)
+					}
+					fmt.Fprintf(os.Stderr, "DEBUG fault clean: victim base %d err %v segments now %v\n", victim.BaseOffset, ferr, bs)
+				}
+				if ferr != nil {
+					x.o.Label("clean-with-delete-fault:error-reported")
+				} else {
+					x.o.Label("clean-with-delete-fault:no-error")
+				}
+				if ferr == nil {
+					// the cycle went through (the victim was not due, or the failure was
+					// not reported): its effect is that of a clean without a fault. The
+					// clean proper then starts from what that cycle left - with timestamps
+					// that are not monotone a second pass can remove more, because the age
+					// limit stops at the first segment that has not expired and the first
+					// pass may have removed that segment for another limit.
+					cut1, _ := retentionCut(m.Segs[:n], maxBytes, maxMsgs, ageOn, ttl)
+					if cut1 > 0 {
+						m.Segs = m.Segs[cut1:]
+						n = len(m.Segs)
+						x.trimmed = true
+					}
+				}
+				// the fault goes away
+				if f, e := os.OpenFile(victim.logPath(), os.O_RDWR|os.O_APPEND, 0644); e == nil {
+					victim.Lock()
+					victim.log, victim.writer, victim.reader = f, f, f
+					victim.Unlock()
+				}
+			}
+		}
+	}
 	err := x.l.Clean()
 	computeTTL = saved
 	if duringErr != nil {
@@ -270,6 +315,25 @@ func (x *clExec) clean(op clOp) *vfutil.Failure {
 		gotSet[g.Off] = true
 	}
 	desc := fmt.Sprintf("step %d: Clean() with limits bytes=%d msgs=%d age(ttl)=%v/%d compact=%v hw=%d on segments %s", x.step, maxBytes, maxMsgs, ageOn, ttl, op.Compact, hw, layoutString(m.Segs))
+	if faulted {
+		// a segment whose deletion failed in the earlier cycle must have been
+		// dealt with by this successful one: what is on disk is what the log holds
+		var inMem, onDisk []int64
+		for _, sg := range x.l.Segments() {
+			inMem = append(inMem, sg.BaseOffset)
+		}
+		files, _ := os.ReadDir(x.dir)
+		for _, fi := range files {
+			if strings.HasSuffix(fi.Name(), logFileSuffix) {
+				b, _ := strconv.ParseInt(strings.TrimSuffix(fi.Name(), logFileSuffix), 10, 64)
+				onDisk = append(onDisk, b)
+			}
+		}
+		sort.Slice(onDisk, func(i, j int) bool { return onDisk[i] < onDisk[j] })
+		if fmt.Sprint(inMem) != fmt.Sprint(onDisk) {
+			return vfutil.Failf(x.sig("retention/segment-left-on-disk-after-failed-delete"), "%s, after an earlier Clean() in which deleting one segment failed: the log holds segments %v but the directory holds %v", desc, inMem, onDisk)
+		}
+	}
 	// retention: exactly the oldest `cut` segments are gone
 	for i, s := range m.Segs {
 		for _, mm := range s.Msgs {
